@@ -886,9 +886,11 @@ static uint64_t hash_rec(const Rec& r) {
     return h;
 }
 
-static void history(Src& s, Ctx& ctx) {
+static void history(Src& s, Ctx& ctx, bool big = false) {
     Model m;
     GenState g;
+    if (big) g.budget = 60000;  // DNS over TCP: messages up to 65535 octets, i.e. record data beyond the 14-bit pointer range
+    bool beyond = false;         // some compression pointer's target has been shifted past offset 0x3fff
     std::unique_ptr<DNS> d;
     std::vector<PtrInfo> ptrs;
     size_t sec_end[4] = {12, 12, 12, 12};
@@ -898,6 +900,7 @@ static void history(Src& s, Ctx& ctx) {
     bool wire = !(kb == 0 || (kb & 3) == 1);
     unsigned nedits = (kb >> 2) % 13;  // 0..12, drawn before the records so that a short input still gets (default) edits
     if (kb >= 0xd0) nedits = (kb >> 2) & 3;
+    if (big) { wire = true; nedits = 5 + (kb >> 2) % 8; }  // enough bulk insertions in front of compressed names
     if (wire) {
         Sub hs(s);
         Src& x = hs.s;
@@ -992,6 +995,17 @@ static void history(Src& s, Ctx& ctx) {
                 } else {
                     Rec r = gen_rec(x, g);
                     unsigned style = x.u8();
+                    if (big && x.chance(55)) {  // bulk opaque data (type NULL): pushes what follows towards and past offset 0x3fff
+                        r.type = 10;
+                        r.kind = K_RAW;
+                        r.target.clear();
+                        r.rname.clear();
+                        size_t want = x.chance(25) ? (size_t)x.range(0, 300) : (size_t)x.range(2000, 17000);
+                        r.raw.resize(want);
+                        for (size_t i = 0; i < want; ++i) r.raw[i] = (uint8_t)(i * 7 + want);
+                        g.budget -= std::min(g.budget, want);
+                        ctx.label("bulk-record");
+                    }
                     check_codec(ctx, r.name);
                     note_names(ctx, r, many);
                     sz = rec_plain_size(r);
@@ -1013,7 +1027,11 @@ static void history(Src& s, Ctx& ctx) {
             bool shifts = ins < sec_end[3];
             for (PtrInfo& p : ptrs) {
                 if (p.pos < ins) continue;
-                if (p.target >= ins) { p.target += sz; ctx.label("pointer-target-shifted"); }
+                if (p.target >= ins) {
+                    p.target += sz;
+                    ctx.label("pointer-target-shifted");
+                    if (p.target > 0x3fff && !beyond) { beyond = true; ctx.label("pointer-target-shifted-beyond-14-bits"); }
+                }
                 else {
                     ctx.label("pointer-target-kept");
                     if (p.target + 12 > ins) ctx.label("pointer-target-within-12-before-insertion");
@@ -1025,8 +1043,23 @@ static void history(Src& s, Ctx& ctx) {
             else ctx.label("insert-at-end");
             sample << " +" << opname.substr(4) << (shifts ? "^" : "");
         }
-        check_state(ctx, *d, m, "edit");
-        check_roundtrip(ctx, *d, m);
+        if (!beyond) {
+            check_state(ctx, *d, m, "edit");
+            check_roundtrip(ctx, *d, m);
+        } else {
+            // The property still demands that the pointer designates the same name; a 14-bit pointer cannot say so, so the
+            // library would have to expand the name. Whatever goes wrong from here on is attributed to that one cause.
+            try {
+                check_state(ctx, *d, m, "edit");
+                check_roundtrip(ctx, *d, m);
+            } catch (const PropFail& f) {
+                ctx.report("C10:edit:pointer-target-shifted-beyond-14-bits", "after an insertion moved a compression pointer's target past offset 0x3fff: [" + f.sig + "] " + f.msg);
+                ctx.label("valid-history");
+                ctx.nontrivial(true);
+                ctx.sample(sample.str() + " (pointer target beyond 0x3fff)");
+                return;
+            }
+        }
     }
     if (many) { nontrivial = true; ctx.label("name>=31-labels"); }
     if (g.clamped) ctx.excluded("long names replaced by short ones once the message passed 10 kB (14-bit pointer range)");
@@ -1037,31 +1070,59 @@ static void history(Src& s, Ctx& ctx) {
 }
 
 // ---------------------------------------------------------------- hostile messages
+// every getter and serialize(); true when one of them failed with a libtins exception
+static bool hostile_read_all(Ctx& ctx, DNS& d) {
+    bool getter_threw = false;
+    (void)d.questions_count(); (void)d.answers_count(); (void)d.authority_count(); (void)d.additional_count();
+    try {
+        DNS::queries_type q = d.queries();
+        unsigned acc = 0;
+        for (const DNS::query& e : q) acc += (unsigned)e.dname().size() + (unsigned)e.query_type() + (unsigned)e.query_class();
+        if (acc == 0xffffffffu) ctx.label("never");
+    } catch (const Tins::exception_base&) { getter_threw = true; }
+    for (int k = 0; k < 3; ++k) {
+        try {
+            DNS::resources_type rs = k == 0 ? d.answers() : k == 1 ? d.authority() : d.additional();
+            for (const DNS::resource& r : rs) {
+                if (r.query_type() == T_SOA) {
+                    try { DNS::soa_record soa(r); (void)soa.serial(); } catch (const Tins::exception_base&) { getter_threw = true; }
+                }
+            }
+        } catch (const Tins::exception_base&) { getter_threw = true; }
+    }
+    try {
+        Bytes out = d.serialize();
+        (void)out;
+    } catch (const Tins::exception_base&) { getter_threw = true; }
+    return getter_threw;
+}
+
 static void hostile_check(Ctx& ctx, const Bytes& w) {
     bool rejected = false, getter_threw = false;
     try {
         DNS d(w.data(), (uint32_t)w.size());
-        (void)d.questions_count(); (void)d.answers_count(); (void)d.authority_count(); (void)d.additional_count();
-        try {
-            DNS::queries_type q = d.queries();
-            unsigned acc = 0;
-            for (const DNS::query& e : q) acc += (unsigned)e.dname().size() + (unsigned)e.query_type() + (unsigned)e.query_class();
-            if (acc == 0xffffffffu) ctx.label("never");
-        } catch (const Tins::exception_base&) { getter_threw = true; }
-        for (int k = 0; k < 3; ++k) {
+        getter_threw = hostile_read_all(ctx, d);
+        // A message the constructor accepted is then edited (what a proxy or a responder does with a received message):
+        // nothing is known about its records, so the only demands are the last clause of the property - malformed names and
+        // pointers are reported as libtins errors, memory outside the message is never touched - and that the object stays
+        // usable afterwards. The edit programme is a function of the message bytes.
+        unsigned e = w.empty() ? 0 : w[w.size() / 2] ^ (unsigned)w.size();
+        unsigned edits_ok = 0, edits_threw = 0;
+        for (unsigned i = 0; i < 3; ++i) {
             try {
-                DNS::resources_type rs = k == 0 ? d.answers() : k == 1 ? d.authority() : d.additional();
-                for (const DNS::resource& r : rs) {
-                    if (r.query_type() == T_SOA) {
-                        try { DNS::soa_record soa(r); (void)soa.serial(); } catch (const Tins::exception_base&) { getter_threw = true; }
-                    }
+                switch ((e + i) % 5) {
+                    case 0: d.add_query(DNS::query("q.example", DNS::A, DNS::IN)); break;
+                    case 1: d.add_answer(DNS::resource("a.example", "1.2.3.4", DNS::A, DNS::IN, 60)); break;
+                    case 2: d.add_authority(DNS::resource("example", "ns.example", DNS::NS, DNS::IN, 60)); break;
+                    case 3: d.add_additional(DNS::resource("ns.example", "::1", DNS::AAAA, DNS::IN, 60)); break;
+                    default: d.add_answer(DNS::resource("m.example", "mail.example", DNS::MX, DNS::IN, 60, 10)); break;
                 }
-            } catch (const Tins::exception_base&) { getter_threw = true; }
+                ++edits_ok;
+            } catch (const Tins::exception_base&) { ++edits_threw; }
+            hostile_read_all(ctx, d);
         }
-        try {
-            Bytes out = d.serialize();
-            (void)out;
-        } catch (const Tins::exception_base&) { getter_threw = true; }
+        if (edits_threw) ctx.label("hostile-edit-rejected");
+        if (edits_ok) ctx.label("hostile-edit-accepted");
     } catch (const Tins::exception_base&) {
         rejected = true;
     }
@@ -1166,7 +1227,8 @@ static void hostile_raw(Src& s, Ctx& ctx) {
 
 void prop(Src& s, Ctx& ctx) {
     unsigned sel = s.u8();
-    if (sel < 184) history(s, ctx);
+    if (sel < 176) history(s, ctx);
+    else if (sel < 184) history(s, ctx, true);  // large messages (up to ~60 kB)
     else if (sel < 246) hostile_structured(s, ctx);
     else hostile_raw(s, ctx);
 }
